@@ -13,7 +13,7 @@ sizes from {256, 512, 1024, 2048} in the 2 KiB window (`Sizes`).
 What is proved, and what is NOT true of the unchanged code:
 
 * (a) `resident_tables_disjoint`, `resident_values_distinct`, `resident_tables_in_window` — full.
-* (b) `optimised_refines_original_at_decision` — full for the values the pass gives *when it processes a command*, under
+* (b) `refines_original_at_decision` — full for the values the pass gives *when it processes a command*, under
   `EqualValuesEqualBytes` (tables whose values compare equal are the same bytes). `dropped_dma_sound_partial` — the same for
   the values the later stages read (after the pass), with the extra hypothesis `stable` (no address / index the pass
   assigned was overwritten by a later assignment). The full statement
@@ -71,13 +71,31 @@ theorem sticky_addresses_never_change (c : Ctx) (r : Refine) (hst : c.sticky = t
   let k := run_sticky hst cmds {} s acts (sticky_init c r) hown h
   ⟨k.one, k.entries, sticky_stable hst hown h⟩
 
+/-- **find_best_address_minimal.** `find_best_address` returns an address of `range(start, stop, step)` that overlaps the
+    fewest tracked tables (the list being shorter than `stop`, the value the loop starts from — always so: at most 8 tables
+    fit the window and `stop` is an SHRAM address beyond 2048) -/
+theorem find_best_address_minimal (st : State) (start stop step a : Nat) (h : findBestAddress st start stop step = .ok a)
+    (hlen : st.length < stop) (hne : start < stop) :
+    a ∈ pyRange start stop step ∧ ∀ a' ∈ pyRange start stop step, nrOverlaps st a step ≤ nrOverlaps st a' step :=
+  findBestAddress_minimal h hlen hne
+
+/-- **free_slot_no_eviction.** If some place of the right size and alignment is free, the table goes to a free place and
+    `put` keeps every tracked table -/
+theorem free_slot_no_eviction (c : Ctx) (st : State) (t a a' : Nat)
+    (h : findBestAddress st c.lutStart (c.lutStart + c.lutSize) (c.size t) = .ok a) (hlen : st.length < c.lutStart + c.lutSize)
+    (hne : 0 < c.lutSize) (hfree : a' ∈ pyRange c.lutStart (c.lutStart + c.lutSize) (c.size t)) (h0 : nrOverlaps st a' (c.size t) = 0) :
+    put st (mkTab c t a) = mkTab c t a :: st := by
+  obtain ⟨_, hmin⟩ := findBestAddress_minimal h hlen (by omega)
+  have := hmin a' hfree
+  exact put_of_no_overlap st (mkTab c t a) (by simp only [mkTab]; omega)
+
 /-! ## (b) the optimised stream against the byte-level window -/
 
-/-- **optimised_refines_original_at_decision.** If the unoptimised stream makes sense (`OrigOk`) then in the stream
+/-- **refines_original_at_decision.** If the unoptimised stream makes sense (`OrigOk`) then in the stream
     without the dropped DMAs, with the address / index each command was given when the pass processed it, every kernel
     with a table lookup finds at every byte it reads the byte of its own table, every load lies in the window and every
     index fits its field. -/
-theorem optimised_refines_original_at_decision (c : Ctx) (r : Refine) (hsz : Sizes c) (hcb : EqualValuesEqualBytes c r)
+theorem refines_original_at_decision (c : Ctx) (r : Refine) (hsz : Sizes c) (hcb : EqualValuesEqualBytes c r)
     (hpa : PassesAgree c r) (cmds : List Cmd) (horig : OrigOk c r none cmds) :
     StreamOk (geomOf c) Window.empty (eventsAt c r {} cmds) :=
   eventsAt_ok hsz hcb hpa cmds {} Window.empty none (inv_nil c r {} _ (fun _ h => absurd h List.not_mem_nil)) horig
@@ -90,7 +108,7 @@ theorem dropped_dma_sound_partial (c : Ctx) (r : Refine) (hsz : Sizes c) (hcb : 
     (hst : stable sf.env = true) :
     StreamOk (geomOf c) Window.empty (eventsFinal c r sf.env cmds acts) := by
   rw [eventsFinal_eq_eventsAt hpa hst cmds {} sf acts none hrun (fun _ h => h) (fun _ h => h) (fun _ _ h => nomatch h) horig]
-  exact optimised_refines_original_at_decision c r hsz hcb hpa cmds horig
+  exact refines_original_at_decision c r hsz hcb hpa cmds horig
 
 /-- **dropped_dma_sound_repaired.** The full statement holds of the code with repair C03-11 (`sticky`): for every stream
     whose table DMAs load their own pass's table, what the later stages program is fine. With C03-10 as well
@@ -165,7 +183,7 @@ theorem dropped_dma_sound_witness_reassigned :
   have hcb : EqualValuesEqualBytes w2Ctx w2Ref := fun t u h _ => by simp only [w2Ctx] at h; subst h; exact ⟨rfl, rfl⟩
   have hpa : PassesAgree w2Ctx w2Ref := fun _ => rfl
   have horig : OrigOk w2Ctx w2Ref none w2Cmds := (origOkB_iff _ _ _ _).1 (by decide)
-  refine ⟨hsz, hcb, hpa, horig, optimised_refines_original_at_decision _ _ hsz hcb hpa _ horig, _, _, rfl, by decide, by decide,
+  refine ⟨hsz, hcb, hpa, horig, refines_original_at_decision _ _ hsz hcb hpa _ horig, _, _, rfl, by decide, by decide,
     by decide, by decide, ?_⟩
   rw [← streamOkB_iff]; decide +kernel
 
@@ -233,7 +251,7 @@ theorem reset_rule_sound (c : Ctx) (hsz : Sizes c) (s : PS) (p q t : Nat) (hp : 
 /-- **no_reset_with_reserved_banks.** On a configuration with reserved banks no kernel changes the tracked state — sound
     because there the window lies outside the SHRAM a kernel may use (`Spec/LutWindow.lean` `clobbers`, hand-written per
     configuration; `geometry_table_agrees` ties it to `arch.shram_reserved_unused_banks`): this case of
-    `optimised_refines_original_at_decision` goes through with the window unchanged. -/
+    `refines_original_at_decision` goes through with the window unchanged. -/
 theorem no_reset_with_reserved_banks (c : Ctx) (s : PS) (p : Nat) (hr : c.reserved ≠ 0) :
     step c s (.stripe p) = .ok (s, .untouched false) ∧ stepW (geomOf c) = fun w e => match e with | .load n a b => w.load n a b | _ => w := by
   constructor
@@ -294,7 +312,7 @@ example : OrigOk (exCtx 0 14336) exRef none exCmds ∧
 
 example : StreamOk (geomOf (exCtx 2 22528)) Window.empty (eventsAt (exCtx 2 22528) exRef {} exCmds) :=
   let h := ex_hyps 2 22528
-  optimised_refines_original_at_decision _ _ h.1 h.2.1 h.2.2 _ ((origOkB_iff _ _ _ _).1 (by decide))
+  refines_original_at_decision _ _ h.1 h.2.1 h.2.2 _ ((origOkB_iff _ _ _ _).1 (by decide))
 
 /-- the Spec is not trivially true: a lookup with nothing loaded, a lookup after a clobbering kernel, a lookup of a wide
     table where a narrow one was loaded, a load outside the window are all rejected; the good stream is accepted -/
